@@ -29,10 +29,10 @@ ASSUMPTIONS = [
     'order among attributes / namespace nodes of one element is irrelevant here (paths name them)',
 ]
 FLOORS = {'rt:pi': (0.03, 'rt:node'), 'rt:pos>1': (0.08, 'rt:node'), 'rt:namespaced-name': (0.05, 'rt:node'),
-          'rt:text': (0.10, 'rt:node'), 'rt:parser-with-default-namespace': (0.5, 'rt:node'),
+          'rt:text': (0.10, 'rt:node'), 'rt:namespace-name-begins-with-number': (0.02, 'rt:node'), 'rt:parser-with-default-namespace': (0.5, 'rt:node'),
           'fr:fragment-with-same-named-top-level-elements': (0.15, 'fr:fragment'),
           'fr:under-later-same-named-top-level-element': (0.05, 'fr:node'),
-          'sc:attribute-defaulted': (0.15, 'sc:node'), 'sc:default-or-fixed-attribute-set-explicitly': (0.10, 'sc:node'),
+          'sc:attribute-defaulted': (0.12, 'sc:node'), 'sc:whitespace-only-text-in-element-only-content': (0.08, 'sc:node'), 'sc:default-or-fixed-attribute-set-explicitly': (0.08, 'sc:node'),
           'rt:root()-path-evaluated-from-attribute-or-namespace-focus': (0.05, 'rt:node'),
           'rt:no-namespace-step-with-default-namespace-twin': (0.0015, 'rt:node'), 'rt:comment': (0.03, 'rt:node'), 'rt:pi-function-name-target': (0.01, 'rt:node')}
 
@@ -52,7 +52,7 @@ _cfg = st.fixed_dictionaries({
 def _cases(max_elems):
     return st.fixed_dictionaries({
         'spec': gx.tree_specs(max_elems=max_elems, max_depth=4, max_attrs=3, pi_targets=gx.PI_TARGETS_FN + ('a', 'b'), misc_weight=4,
-                              elem_locals=('a', 'b')),
+                              elem_locals=('a', 'b'), num_uris=True),
         'cfgs': st.lists(_cfg, min_size=3, max_size=3),
     })
 
@@ -262,6 +262,8 @@ def judge_roundtrip_one(spec, cfg, rec: Recorder | None = None) -> list[Disc]:
             nsname = kind in ('element', 'attribute') and rn.name.startswith('{')
             if nsname:
                 classes.append('rt:namespaced-name')
+                if rn.name[1] in '0123456789.':
+                    classes.append('rt:namespace-name-begins-with-number')
             if kind == 'pi' and rn.name in _FUNCTION_LIKE:
                 classes.append('rt:pi-function-name-target')
             if defns:
@@ -328,7 +330,7 @@ def judge_iterpaths(case, rec: Recorder | None = None) -> list[Disc]:
 
 def _frag_cases(max_elems):
     half = gx.tree_specs(max_elems=max(3, max_elems // 2), max_depth=3, max_attrs=2, pi_targets=('x', 'y', 'pi', 'a'), misc_weight=3,
-                         elem_locals=('a', 'a', 'a', 'b'), doc_misc=False, min_elems=3)
+                         elem_locals=('a', 'a', 'a', 'b'), doc_misc=False, min_elems=3, num_uris=True)
 
     def join(t):
         # the CONTENT of the two generated root elements (text, elements, comments, PIs with their tails) is the fragment
@@ -477,10 +479,10 @@ _inst_attrs1 = st.fixed_dictionaries({}, optional={k: st.sampled_from(v) for k, 
 _inst1 = st.recursive(st.fixed_dictionaries({'a': _inst_attrs1, 'c': st.just([])}),
                       lambda ch: st.fixed_dictionaries({'a': _inst_attrs1, 'c': st.lists(ch, max_size=3)}), max_leaves=6)
 _schema_cases = st.one_of(
-    st.fixed_dictionaries({'schema': st.just(0), 'backend': st.sampled_from(['et', 'lxml']), 'rootkind': st.sampled_from(['elem', 'doc']),
+    st.fixed_dictionaries({'schema': st.just(0), 'ws': st.booleans(), 'backend': st.sampled_from(['et', 'lxml']), 'rootkind': st.sampled_from(['elem', 'doc']),
                            'version': st.sampled_from([None, '1', '2']),
                            'items': st.lists(st.fixed_dictionaries({'a': _inst_attrs0, 't': st.sampled_from(['', '1', 'x'])}), max_size=5)}),
-    st.fixed_dictionaries({'schema': st.just(1), 'backend': st.sampled_from(['et', 'lxml']), 'rootkind': st.sampled_from(['elem', 'doc']),
+    st.fixed_dictionaries({'schema': st.just(1), 'ws': st.booleans(), 'backend': st.sampled_from(['et', 'lxml']), 'rootkind': st.sampled_from(['elem', 'doc']),
                            'root': _inst1}))
 
 
@@ -516,6 +518,13 @@ def _build_instance(case):
                 mk(e, c)
             return e
         root = mk(None, case['root'])
+    if case.get('ws'):
+        # indentation: whitespace-only text nodes between the children of elements with element-only content
+        for e in root.iter():
+            if len(e):
+                e.text = '\n  '
+                for i, c in enumerate(e):
+                    c.tail = '\n  ' if i + 1 < len(e) else '\n'
     return root, (E.ElementTree(root) if case['rootkind'] == 'doc' else root)
 
 
@@ -563,9 +572,23 @@ def judge_schema(case, rec: Recorder | None = None) -> list[Disc]:
         if got != [addr]:
             fk = 'selects-nothing' if not got else 'selects-several' if len(got) > 1 else 'selects-other-node'
             defaulted = kind == 'attribute' and node.name not in node.parent.value.attrib
-            discs.append(Disc(f'C14/schema/path-property/{fk}/{kind}' + ('/defaulted' if defaulted else ''), [addr], got, f'path={p} ' + detail))
+            wsx = '/whitespace-only' if kind == 'text' and not node.value.strip() else ''
+            discs.append(Disc(f'C14/schema/path-property/{fk}/{kind}' + ('/defaulted' if defaulted else '') + wsx, [addr], got, f'path={p} ' + detail))
+        # ... and on a plain context created for the SAME, already typed, tree: identity
+        try:
+            same = list(_P[None].parse(p).select(XPathContext(top)))
+        except ElementPathError as e:
+            same = None
+            discs.append(Disc(f'C14/schema/path-property/same-tree/error/{kind}', 'selects the node', f'{e!r}: {p}', detail))
+        if same is not None and not (len(same) == 1 and same[0] is node):
+            fk = 'selects-nothing' if not same else 'selects-several' if len(same) > 1 else 'selects-other-node'
+            ws = kind == 'text' and not node.value.strip()
+            discs.append(Disc(f'C14/schema/path-property/same-tree/{fk}/{kind}' + ('/whitespace-only' if ws else ''), '[node]',
+                              f'{len(same)} items', f'path={p} ' + detail))
         if rec is not None:
             classes = ['sc:node', f'sc:{kind}']
+            if kind == 'text' and not node.value.strip() and node.value:
+                classes.append('sc:whitespace-only-text-in-element-only-content')
             if kind == 'attribute':
                 classes.append('sc:attribute-defaulted' if node.name not in node.parent.value.attrib else 'sc:attribute-set-in-instance')
                 if node.name in ('unit', 'cur', 'k', 'f', 'version') and node.name in node.parent.value.attrib:
@@ -617,7 +640,7 @@ def jobs(tier, seed):
     q = tier == 'quick'
     out = []
     nr, ni, nf = (11, 2, 2) if q else (10, 3, 2)
-    per_r, per_i, per_f = (800, 1500, 1200) if q else (8000, 16000, 12000)
+    per_r, per_i, per_f = (700, 1500, 1200) if q else (8000, 16000, 12000)
     me = 10 if q else 24
     for i in range(nr):
         out.append({'check': 'roundtrip', 'shard': i, 'n': per_r, 'max_elems': me, 'seed': derive_seed(seed, 'C14', 'roundtrip', i)})
